@@ -676,6 +676,9 @@ func lvlConcChecks(c *Ctx) {
 			c.Inconclusive("bad LevelHTTPConc behaviour: %v", err)
 			return
 		}
+		if ndiv >= 15 {
+			return // requests no longer block where the model has them: stop paying timeouts
+		}
 		n++
 		if !c.Thorough() && n%3 != 0 {
 			return
